@@ -31,7 +31,7 @@ func init() {
 		Run: run,
 		Floors: func(t string) map[string]int64 {
 			return map[string]int64{"cfg.entirely_inside": 100, "cfg.entirely_outside_bbox_overlap": 100, "cfg.entirely_outside_bbox_disjoint": 100, "cfg.crosses_hole": 100, "cfg.enters_several_times": 200, "cfg.two_vertex_line": 100,
-				"recv.MultiLineString": 300, "arg.*Bounds": 100, "arg.MultiPolygon": 300, "arg.Polygon": 300, "result.vertices_checked": 5000, "line.long": 100, "line.axis_parallel": 500, "line.all_vertices_in_one_hole": 300}
+				"recv.MultiLineString": 300, "arg.*Bounds": 100, "arg.MultiPolygon": 300, "arg.Polygon": 300, "result.vertices_checked": 5000, "line.long": 100, "line.axis_parallel": 500, "line.all_vertices_in_one_hole": 300, "storage.paths_share_one_backing_array": 500}
 		},
 	})
 }
@@ -366,6 +366,16 @@ func run(c *core.Ctx, idx int) {
 		if c.WantSample() {
 			c.Sample(detail)
 		}
+	}
+	if r.Chance(0.3) {
+		// both arguments with their paths as consecutive sub-slices of one backing array each
+		// (see gen.InArena); the oracle keeps reading the separately allocated originals
+		lin = gen.InArena(lin.(geom.Geom)).G.(geom.Linear)
+		if _, isBox := pgl.(*geom.Bounds); !isBox {
+			pgl = gen.InArena(pgl.(geom.Geom)).G.(geom.Polygonal)
+		}
+		detail["storage"] = "paths are consecutive sub-slices of one backing array"
+		c.Count("storage.paths_share_one_backing_array")
 	}
 	c.Eval()
 	before := gen.DeepCopy(lin)
